@@ -1109,6 +1109,51 @@ def series_small_job(job):
     return {"stats": stats, "violations": kept, "distinct": distinct, "samples": []}
 
 
+def gen_long_series(rng):
+    """A single gap-free stretch far longer than any field record (tens of
+    thousands of samples), with hundreds of storms and rises, some of them long,
+    placed all along it -- index arithmetic and dtypes at scale."""
+    n = rng.choice([40000, 70000])
+    s_thr, jd = 4.0, 1.0
+    rain = [0.0] * n
+    inc = [-0.01] * (n - 1)
+    pos = rng.randint(5, 50)
+    events = 0
+    while pos < n - 400:
+        length = rng.choice([1, 2, 3, 5, 8, 40, 150, 300]) if rng.random() < 0.2 else rng.randint(1, 6)
+        shift = rng.randint(0, 2)
+        rlen = max(1, length + rng.randint(-1, 2))
+        for i in range(pos, pos + length):
+            rain[i] = round(s_thr * rng.uniform(1.1, 3.0), 3)
+        for i in range(pos + shift, min(n - 2, pos + shift + rlen)):
+            inc[i] = round(jd * rng.uniform(1.1, 3.0), 3)
+        if rng.random() < 0.3:                       # a second burst under the same rise, or a split rise
+            q = pos + length + 1
+            rain[q] = round(s_thr * 2.0, 3)
+            inc[q] = round(jd * 1.5, 3)
+        events += 1
+        pos += max(length, rlen) + shift + rng.randint(40, 160)
+    head = [-200.0]
+    for d in inc:
+        head.append(round(head[-1] + d, 3))
+    return rain, head, s_thr, jd
+
+
+def long_series_job(job):
+    stats = collections.Counter()
+    violations, distinct = [], []
+    rng = random.Random(job["seed"])
+    rain, head, s_thr, jd = gen_long_series(rng)
+    schedules = [Schedule(pol, runner.derive_seed(job["seed"], pol)) for pol in ("fifo", "random")]
+    v, st, di = run_series_case(rain, head, s_thr, jd, schedules)
+    stats.update(st)
+    stats["long_series_cases"] += 1
+    stats["long_series_samples"] += len(rain)
+    for x in v:
+        x["replay"]["seed"] = job["seed"]
+    return {"stats": stats, "violations": v[:2], "distinct": di[:50], "samples": []}
+
+
 def series_job(job):
     seed, count, n_sched = job["seed"], job["count"], job["n_sched"]
     stats = collections.Counter()
@@ -1299,8 +1344,8 @@ ASSUMPTIONS = [
 
 TIERS = {
     # (function jobs, instances per job, schedules) , (synthetic jobs, datasets per job, threshold pairs, schedules), (field threshold pairs, schedules)
-    "quick": {"fn": (48, 250, 6), "series": (48, 150, 4), "syn": (64, 6, 2, 4), "field": (6, 3), "small_limit": 6},
-    "thorough": {"fn": (640, 1000, 8), "series": (640, 600, 6), "syn": (640, 12, 3, 6), "field": (40, 8), "small_limit": 8},
+    "quick": {"fn": (48, 250, 6), "series": (48, 150, 4), "syn": (64, 6, 2, 4), "field": (7, 3), "small_limit": 6, "long_series": 3},
+    "thorough": {"fn": (640, 1000, 8), "series": (640, 600, 6), "syn": (640, 12, 3, 6), "field": (40, 8), "small_limit": 8, "long_series": 24},
 }
 
 
@@ -1361,6 +1406,8 @@ def check(prop, tier, only=None):
                 jobs.append(("series", {"seed": runner.derive_seed(seed, prop, "series", i), "count": se_count,
                                         "n_sched": se_sched, "want_samples": i == 0}))
         if only in (None, "series"):
+            for i in range(cfg["long_series"]):
+                jobs.append(("long", {"seed": runner.derive_seed(seed, prop, "long", i)}))
             parts = 16
             for part in range(parts):
                 jobs.append(("small", {"seed": runner.derive_seed(seed, prop, "small"), "limit": cfg["small_limit"],
@@ -1377,7 +1424,8 @@ def check(prop, tier, only=None):
                 if not p["ok"]:
                     raise runner.HarnessError("field dataset %d does not load: %r" % (k, p["outcome"]))
                 field_dbs[k] = p["db"]
-            fixed = [(4.0, 5.0), (8.0, 5.0), (8.0, 0.5)]   # the pairs named in the property text
+            # the pairs named in the property text, then two low pairs (many hundreds of storms and rises)
+            fixed = [(4.0, 5.0), (8.0, 5.0), (8.0, 0.5), (0.5, 0.5), (1.0, 2.0)]
             for k in (1, 2):
                 for i in range(fld_pairs):
                     jobs.append(("field", {"seed": runner.derive_seed(seed, prop, "field", k, i), "sample": k,
@@ -1385,7 +1433,7 @@ def check(prop, tier, only=None):
                                            "thresholds": fixed[i] if i < len(fixed) else None,
                                            "want_samples": i < 2}))
         # long jobs first
-        order = {"field": 0, "syn": 1, "small": 2, "series": 3, "fn": 4}
+        order = {"field": 0, "long": 1, "syn": 2, "small": 3, "series": 4, "fn": 5}
         jobs.sort(key=lambda j: order[j[0]])
         for result in runner.run_jobs(_dispatch, jobs):
             report.absorb(result)
@@ -1429,6 +1477,8 @@ def _dispatch(job):
         return series_job(payload)
     if kind == "small":
         return series_small_job(payload)
+    if kind == "long":
+        return long_series_job(payload)
     return field_job(payload)
 
 
